@@ -1,48 +1,33 @@
-//! scratch probe (not a check): which statements do the front ends accept?
+//! scratch probe (not a check)
 use grafeo_engine::GrafeoDB;
 fn main() {
     let db = GrafeoDB::new_in_memory();
     let s = db.session();
-    let qs = [
-        "INSERT (:G {name: 'a', v: 1})",
-        "INSERT (:G {name: 'b'})",
-        "MATCH (a:G {name: 'a'}), (b:G {name: 'b'}) INSERT (a)-[:K]->(b)",
-        "MATCH (a:G {name: 'a'}), (b:G {name: 'b'}) CREATE (a)-[:K]->(b)",
-        "MATCH (n:G {name: 'a'}) SET n.v = 2",
-        "MATCH (n:G {name: 'a'}) SET n:L2",
-        "MATCH (n:G {name: 'a'}) REMOVE n.v",
-        "MATCH (n:G {name: 'a'}) REMOVE n:L2",
-        "MATCH (n:G) RETURN n.name, n.v",
-        "MATCH (n) RETURN n.name",
-        "MATCH (a)-[:K]->(b) RETURN a.name, b.name",
-        "MATCH (a)-[e:K]->(b) DELETE e",
-        "MATCH (a)-[:K]->(b) RETURN a.name, b.name",
-        "MATCH (n:G {name: 'b'}) DELETE n",
-        "MATCH (n:G {name: 'a'}) DETACH DELETE n",
-        "MATCH (n:G) RETURN COUNT(n)",
-        "MATCH (n:G) WHERE n.v = 1 RETURN n.name",
-        "MATCH (n:G) WHERE n.v > 0 RETURN n.name",
-        "MERGE (n:G {name: 'm'})",
-        "MATCH (n) RETURN n.name",
-    ];
-    for q in qs {
-        match s.execute(q) {
-            Ok(r) => println!("GQL ok   {q:70} -> {:?}", r.rows),
-            Err(e) => println!("GQL ERR  {q:70} -> {e}"),
-        }
+    for q in [
+        "INSERT DATA { <http://e/a> <http://e/p> <http://e/b> . <http://e/b> <http://e/p> <http://e/c> . <http://e/a> <http://e/q> \"1\"^^<http://www.w3.org/2001/XMLSchema#integer> . <http://e/b> <http://e/q> \"2\"^^<http://www.w3.org/2001/XMLSchema#integer> . <http://e/a> <http://e/n> \"x\" }",
+    ] { println!("{:?}", s.execute_sparql(q).map(|r| r.rows)); }
+    for q in [
+        "SELECT ?s ?o WHERE { ?s <http://e/p> ?o }",
+        "SELECT ?s ?o ?z WHERE { ?s <http://e/p> ?o . ?o <http://e/p> ?z }",
+        "SELECT ?s ?v WHERE { ?s <http://e/q> ?v FILTER(?v > 1) }",
+        "SELECT ?s ?v WHERE { ?s <http://e/q> ?v FILTER(?v = 1) }",
+        "SELECT ?s ?v WHERE { ?s <http://e/p> ?o OPTIONAL { ?s <http://e/q> ?v } }",
+        "SELECT ?s WHERE { { ?s <http://e/q> ?v } UNION { ?s <http://e/n> ?v } }",
+        "SELECT DISTINCT ?s WHERE { ?s ?p ?o }",
+        "SELECT ?s ?v WHERE { ?s <http://e/q> ?v } ORDER BY DESC(?v)",
+        "SELECT ?s ?v WHERE { ?s <http://e/q> ?v } ORDER BY ?v LIMIT 1",
+        "SELECT ?s ?v WHERE { ?s <http://e/q> ?v } ORDER BY ?v OFFSET 1 LIMIT 1",
+        "SELECT (COUNT(?s) AS ?c) WHERE { ?s <http://e/p> ?o }",
+        "SELECT (COUNT(*) AS ?c) WHERE { ?s <http://e/p> ?o }",
+        "SELECT ?s (COUNT(?o) AS ?c) WHERE { ?s ?p ?o } GROUP BY ?s",
+        "ASK { <http://e/a> <http://e/p> <http://e/b> }",
+        "SELECT ?s WHERE { ?s <http://e/p> ?o FILTER(?o = <http://e/b>) }",
+        "SELECT ?s WHERE { ?s <http://e/n> \"x\" }",
+        "SELECT ?x WHERE { ?x <http://e/p> ?x }",
+        "SELECT ?s ?p ?o WHERE { ?s ?p ?o FILTER(isLiteral(?o)) }",
+        "SELECT ?s WHERE { ?s <http://e/p> ?o FILTER NOT EXISTS { ?o <http://e/p> ?z } }",
+        "SELECT ?s ?o WHERE { ?s <http://e/p> ?o MINUS { ?s <http://e/q> ?v } }",
+    ] {
+        match s.execute_sparql(q) { Ok(r) => println!("ok  {q:90} -> {:?}", r.rows), Err(e) => println!("ERR {q:90} -> {}", e.to_string().lines().next().unwrap_or("")) }
     }
-    for q in ["INSERT DATA { <http://ex/a> <http://ex/p> \"x\" }", "SELECT ?s ?p ?o WHERE { ?s ?p ?o }", "DELETE DATA { <http://ex/a> <http://ex/p> \"x\" }", "SELECT ?s WHERE { ?s <http://ex/p> \"x\" }"] {
-        match s.execute_sparql(q) {
-            Ok(r) => println!("SPARQL ok  {q:60} -> {:?}", r.rows),
-            Err(e) => println!("SPARQL ERR {q:60} -> {e}"),
-        }
-    }
-    for q in ["MATCH (n) RETURN n.name", "CREATE (:C {name: 'c'})", "MATCH (n:C) RETURN n.name"] {
-        match s.execute_cypher(q) {
-            Ok(r) => println!("CYPHER ok  {q:60} -> {:?}", r.rows),
-            Err(e) => println!("CYPHER ERR {q:60} -> {e}"),
-        }
-    }
-    match s.execute_gremlin("g.V().hasLabel('C').values('name')") { Ok(r) => println!("GREMLIN ok -> {:?}", r.rows), Err(e) => println!("GREMLIN ERR {e}") }
-    match s.execute_graphql("{ C { name } }") { Ok(r) => println!("GRAPHQL ok -> {:?}", r.rows), Err(e) => println!("GRAPHQL ERR {e}") }
 }
